@@ -187,6 +187,21 @@ Definition gen_big_sizes (hosts : list nat) (N nodes : nat) : option (list nat) 
   | Some (_, sizes) => Some (rev sizes)
   end.
 
+(* ---------- the callers of the generators the property is anchored in ------ *)
+
+(* local.go, LocalTest.GenBigTree(nbrTreeNodes, nbrServers, bf): nbrServers servers, all on
+   the local host, and a tree of nbrTreeNodes nodes over them. *)
+Definition lt_gen_big_tree (nbrTreeNodes nbrServers bf : nat) : gres :=
+  gen_big (repeat 0 nbrServers) bf nbrTreeNodes.
+
+(* local.go, LocalTest.GenTree(n): n servers and the binary tree over them. *)
+Definition lt_gen_tree (n : nat) : gres := gen_binary n.
+
+(* simulation.go, SimulationBFTree.CreateTree: a tree of s.Hosts nodes with branching
+   factor s.BF over the configured roster. *)
+Definition sim_create_tree (hosts : list nat) (bf nhosts : nat) : gres :=
+  gen_big hosts bf nhosts.
+
 (* ---------- verified well-formedness checker (run on the Go result) ------- *)
 
 (* children count of node k in a parent list *)
